@@ -34,7 +34,7 @@ V1_ONLY = ["target_altitude", "target_angle", "vertical_mode", "horizontal_mode"
 
 def frame(ctx, me, df=None):
     rng = ctx.rng
-    hx = "%028X" % bits.es_frame(df or rng.choice((17, 17, 18)), rng.randrange(8), rng.getrandbits(24), me)
+    hx = "%028X" % bits.es_frame(df or rng.choice((17, 17, 18)), rng.randrange(8), rng.fill(24), me)
     return hx.lower() if rng.random() < 0.15 else hx
 
 
@@ -54,7 +54,7 @@ def m_tc28(ctx, case):
     for st in (0, 1):
         for state in range(8):
             for rep in range(case["reps"]):
-                me = radsb.tc28(st, state if st == 1 else (0 if rep % 2 == 0 else state), rng.getrandbits(13), rng.getrandbits(32))
+                me = radsb.tc28(st, state if st == 1 else (0 if rep % 2 == 0 else state), rng.fill(13), rng.fill(32))
                 hx = frame(ctx, me)
                 state_eff = radsb.get(me, 9, 11)
                 r = call(adsb.emergency_state, hx)
@@ -209,7 +209,7 @@ def m_tc31(ctx, case):
     from pyModeS import adsb
     rng = ctx.rng
     for ov in case["fields"]:
-        f = {"st": rng.randrange(2), "cc": rng.getrandbits(16), "om": rng.getrandbits(16), "ver": rng.randrange(8), "nics": rng.randrange(2),
+        f = {"st": rng.randrange(2), "cc": rng.fill(16), "om": rng.fill(16), "ver": rng.randrange(8), "nics": rng.randrange(2),
              "nacp": rng.randrange(16), "gva": rng.randrange(4), "sil": rng.randrange(4), "nb": rng.randrange(2), "hrd": rng.randrange(2),
              "ss": rng.randrange(2), "resv": rng.randrange(2)}
         f.update(ov)
@@ -274,7 +274,7 @@ def m_lookups(ctx, case):
     seen = {}
     for tc in [t for t in range(5, 23) if t != 19]:
         for rep in range(case["reps"]):
-            me = (tc << 51) | rng.getrandbits(51)
+            me = (tc << 51) | rng.fill(51)
             hx = frame(ctx, me)
             r = call(adsb.nuc_p, hx)
             ctx.ev()
